@@ -142,6 +142,31 @@ PROPS = {
         "technique": "Coq proof (acceptance implies rules) over a parser model with concrete hashing + source-regenerated limit guards + "
                      "vm_compute correspondence on mutated requests x boundary configurations",
     },
+    "C11": {
+        "cmd": "c11", "seed": 111, "gentie": 0, "corr": ["Builder"], "coq_dirs": ["Parser", "Hash", "Jws", "Resolve", "Corr/Builder", "Props/C11"],
+        "rule": "builders: for keys of all five types and both hash codes, the four builders called around a valid centre one axis at a "
+                "time (13 signer / header / nonce variants incl. nil signer, nil headers, missing / empty / non-string / foreign alg, "
+                "extra header, failing signer; 8 patch shapes incl. opaque documents, both, none, disabled action; 4 windows; anchor "
+                "origins of every JSON kind; 11 input defects incl. empty suffix / reveal, nil key, key re-use, mixed hash codes, "
+                "equal commitments, foreign reveal, unsupported and unknown code) plus random combinations, each parsed by the real "
+                "parser under 5 protocol configurations (all enabled; single signature algorithm; single curve; SHA-256 only; SHA-512 "
+                "first); effects: 21 scripts (U, UU, R, UR, RU, URUU, D, early / late / default windows, RR ...) x 5 key types x 2 "
+                "hash codes built by the client library, anchored and resolved by the real processor; distinct by full input",
+        "trusted_base": ["modelled, not verified (facts of lower layers): canonical bytes of the structs the builders marshal (C07), "
+                         "header JSON and signature bytes of the caller's signer, signature primitive verdict (C09), per-patch "
+                         "validation (C18), PatchesFromDocument verdict (C17)", "delta hash, suffix, commitments, base64 / JWS framing are computed in Coq"],
+        "assumptions": ["protocol parameters below 2^62"],
+        "level_text": "Completeness theorems, one per operation type: whatever a builder emits from valid inputs is accepted by the "
+                      "parser model (intake and batch) of any protocol that enables the hash code, signature algorithm and curve used, "
+                      "and parses back to the supplied suffix, reveal value, delta, commitments, key and window; the delta matches the "
+                      "signed hash, the reveal value links to the previous commitment, the framed JWS verifies. Effect: extension "
+                      "theorems on the resolution model (a well-formed update / recover / deactivate appended to a resolved history "
+                      "yields exactly apply's state). Builder model tied to the real builders, parser model to the real parser and "
+                      "resolution model to the real processor by differential runs over all algorithms.",
+        "level_note": "Trusted: Coq kernel + vm_compute; harness view builder. The signature primitive is an oracle (crypto_ok).",
+        "technique": "Coq proof (builder-to-parser completeness, extension of resolution) + vm_compute correspondence of a builder model "
+                     "against the real client library x parser x processor for all key types and hash codes",
+    },
     "C13": {
         "cmd": "c13", "seed": 113, "gentie": 0, "corr": ["Batch"], "coq_dirs": ["Batch", "Corr/Batch", "Props/C13"],
         "rule": "batches of 1-12 client-built operations over 6 DIDs (all four types, anchor origins of every JSON kind, repeated "
